@@ -9,6 +9,7 @@
 import JoinModel.Lemmas.CtxFacts
 import JoinModel.Lemmas.OptionParse
 import JoinModel.Print
+import JoinModel.Lemmas.JoinerCount
 namespace JoinModel.Props.C16
 open JoinModel
 
@@ -211,5 +212,33 @@ example :
     (parseOptions o 9 9 (lazy ++ joiner ++ lazy ++ [.ident "a"]) {}).toOption.isSome = false := by
   intro o lazy joiner
   exact ⟨rfl, rfl⟩
+
+/-! ### the joiner in the emitted token stream -/
+
+/-- **`custom_joiner(j)` is written into the expansion once per step that has more than one active branch, and nowhere
+    else** — whatever the other options (a configured futures path does not displace it), the macro kind, the number of
+    branches and steps: for an identifier `s` that the caller wrote only inside `j` (not in the operands, the handler, the
+    `let` patterns or the futures path), the occurrences of `s` in the whole printed expansion are
+    Σ over the steps k = 0 … max−1 of (occurrences of `s` in `j` if step k has more than one active branch, else 0). -/
+theorem custom_joiner_once_per_joined_step (s : String) (hm : PMarker s) (p : Input) (kind : Kind) (code : Code) (c : Ctx)
+    (j : Toks) (hc : mkCtx p kind = .ok c) (h : gen p kind = .ok code) (hinit : InitialOnlyFirst p) (hj : p.joiner = some j)
+    (hpats : ∀ b ∈ p.branches, ∀ pt, b.pat = some pt → pt.ident ≠ s ∧ cntToks s pt.toks = 0)
+    (hfcp : cntToks s (p.fcp.getD []) = 0) (hfut : "futures" ≠ s) (hops : cntProgram s p = 0)
+    (hhd : cntToks s ((p.handler.map (·.2)).getD []) = 0) :
+    cntToks s (printCode code) = sumR (fun i => if c.activeCount i > 1 then cntToks s j else 0) 0 c.maxSteps :=
+  joiner_count hm p kind code c j hc h hinit hj hpats hfcp hfut hops hhd
+
+/-- Non-vacuity: depths (2, 2, 1) under `join_async!` with `futures_crate_path(my::fut) custom_joiner(my_join)`: both steps
+    have more than one active branch, and `my_join` occurs twice in the expansion; with depths (1, 2) once. -/
+example :
+    let ini : Member := ⟨.initial, false, .none, [⟨.expr, [.ident "a"]⟩]⟩
+    let stp : Member := ⟨.map, true, .none, [⟨.expr, [.ident "f"]⟩]⟩
+    let opts (bs : List Branch) : Input :=
+      { fcp := some [.ident "my", pj ':', pu ':', .ident "fut"], joiner := some [.ident "my_join"], branches := bs }
+    (match gen (opts [⟨none, [ini, stp]⟩, ⟨none, [ini, stp]⟩, ⟨none, [ini]⟩]) ⟨true, false, false⟩ with
+      | .ok code => cntToks "my_join" (printCode code) | .error _ => 0) = 2 ∧
+    (match gen (opts [⟨none, [ini]⟩, ⟨none, [ini, stp]⟩]) ⟨true, false, false⟩ with
+      | .ok code => cntToks "my_join" (printCode code) | .error _ => 0) = 1 := by
+  decide +kernel
 
 end JoinModel.Props.C16
